@@ -13,6 +13,7 @@ inductive Case where
   | xbgp (c : Codec) (chunks : List Bytes)
   | rtr (chunks : List Bytes)
   | bfd (b : Bytes)
+  | xattr (kind : String) (b : Bytes)
   deriving Repr
 
 def profileOf? : String → Option Profile
@@ -68,6 +69,8 @@ def caseOf? : Term → Option Case
       some (.xbgp codec chunks)
   | .list [.atom "rtr", ch] => (chunksOf? ch).map .rtr
   | .list [.atom "bfd", b] => (bytesOf? b).map .bfd
+  | .list [.atom "xattr", .atom k, b] =>
+      if k == "tunnel" || k == "psid" || k == "ls" then (bytesOf? b).map (.xattr k) else none
   | _ => none
 
 /-! ## observations (printing) -/
@@ -154,6 +157,7 @@ def bfdT : Out (Except BfdErr BfdMsg) → Term
 def runCase (p : Profile) : Case → Term
   | .bgp c chunks => tag "obs" ((bgpStream (decP3 p noHypDec) p c [] chunks).map recT)
   | .xbgp _ _ => list [sym "hyp"]
+  | .xattr _ _ => list [sym "hyp"]
   | .rtr chunks => tag "obs" ((rtrStream [] chunks).map rrecT)
   | .bfd b => tag "obs" [bfdT (bfdDecode b)]
 
@@ -166,7 +170,7 @@ def srecOf? : Term → Option SRec
   | .list [.atom "msg", n, r, _] => do pure (.msg (← asNat? n) (← asNat? r))
   | .list [.atom "pdu", n, r, _] => do pure (.msg (← asNat? n) (← asNat? r))
   | .list [.atom "more", r] => do pure (.more (← asNat? r))
-  | .list [.atom "err", _, _, _, n, r] => do pure (.err (← asNat? n) (← asNat? r))
+  | .list [.atom "err", c, sc, _, n, r] => do pure (.errc (← asNat? n) (← asNat? r) (← asNat? c) (← asNat? sc))
   | .list [.atom "err", n, r] => do pure (.err (← asNat? n) (← asNat? r))
   | _ => none
 
@@ -193,6 +197,24 @@ def oracle (c : Case) (obs : Term) : String :=
       match rs.mapM srecOf? with
       | some recs => verdictStr (Spec.checkBgpCase codec.maxLen chunks recs)
       | none => "fail idx=0 clause=unparsable-observation"
+  | .xattr _ _, .list [.atom "obs", .list [.atom "done"]] => verdictStr (Spec.checkAttrBody .done)
+  | .xattr _ _, .list [.atom "obs", .list [.atom "panic"]] => verdictStr (Spec.checkAttrBody .panic)
+  | .xattr _ _, .list [.atom "obs", .list [.atom "stall"]] => verdictStr (Spec.checkAttrBody .stall)
   | _, _ => "fail idx=0 clause=unparsable-observation"
+
+/-- evidence only: case kind and, for errors, the NOTIFICATION class that was judged -/
+def stats (c : Case) (obs : Term) : String :=
+  let kind := match c with
+    | .bgp _ _ => "bgp" | .xbgp _ _ => "xbgp" | .rtr _ => "rtr" | .bfd _ => "bfd" | .xattr k _ => s!"xattr-{k}"
+  let errs := match obs with
+    | .list (.atom "obs" :: rs) =>
+        rs.filterMap fun (r : Term) => match r with
+          | .list [.atom "err", .atom code, .atom sub, _, _, _] => some s!"err-class:{kind}:{code}/{sub}=1"
+          | .list [.atom "err", _, _] => some s!"err:{kind}=1"
+          | .list (.atom "msg" :: _) => some s!"msg:{kind}=1"
+          | .list (.atom "pdu" :: _) => some s!"pdu:{kind}=1"
+          | _ => none
+    | _ => []
+  " ".intercalate (s!"judged:{kind}=1" :: errs.eraseDups)
 
 end Rbgp.Wire.Codec
